@@ -211,6 +211,16 @@ func (s *symb) expr0(v ssa.Value) *Sym {
 		return &Sym{Op: "bin:" + op.String(), Args: []*Sym{a, b}, Val: v}
 	case *ssa.UnOp:
 		if x.Op == token.MUL {
+			// load of a field of a local struct variable that is a copy of a loaded struct: the original's field
+			if fa, ok := x.X.(*ssa.FieldAddr); ok {
+				if al, ok := fa.X.(*ssa.Alloc); ok {
+					if val := cellValue(al); val != nil {
+						if ld, ok := val.(*ssa.UnOp); ok && ld.Op == token.MUL {
+							return &Sym{Op: "load", Args: []*Sym{{Op: "field", Leaf: fmt.Sprintf("f%d", fa.Field), Args: []*Sym{s.expr(ld.X)}}}, Val: v}
+						}
+					}
+				}
+			}
 			// load of a variable's cell that is assigned exactly once: the assigned value (store forwarding)
 			if al, ok := x.X.(*ssa.Alloc); ok {
 				if _, isStruct := al.Type().(*types.Pointer).Elem().Underlying().(*types.Struct); !isStruct {
@@ -246,6 +256,10 @@ func (s *symb) expr0(v ssa.Value) *Sym {
 	case *ssa.FieldAddr:
 		return &Sym{Op: "field", Leaf: fmt.Sprintf("f%d", x.Field), Args: []*Sym{s.expr(x.X)}, Val: v}
 	case *ssa.Field:
+		// field of a loaded struct value == load of the field's address
+		if ld, ok := x.X.(*ssa.UnOp); ok && ld.Op == token.MUL {
+			return &Sym{Op: "load", Args: []*Sym{{Op: "field", Leaf: fmt.Sprintf("f%d", x.Field), Args: []*Sym{s.expr(ld.X)}}}, Val: v}
+		}
 		return &Sym{Op: "field", Leaf: fmt.Sprintf("f%d", x.Field), Args: []*Sym{s.expr(x.X)}, Val: v}
 	case *ssa.Call:
 		var as []*Sym
